@@ -345,6 +345,12 @@ func init() {
 		r.Explanation = "explicit-state search: each canonical tree is materialised on tmpfs, each request is served by webdav.Handler{LocalFileSystem}, and (status, headers, body, multistatus, tree afterwards) is compared with a reference RFC 4918 resource-tree model; by induction over history length agreement on every (state, request) pair of the universe covers every history that stays inside it"
 		r.Assumptions = []string{"mtimes are fixed by the materialiser; entity tags are treated as opaque strings read from the server in the same state", "DELETE / and COPY/MOVE with source / are outside the model"}
 		r.Extra["requests_per_state"] = len(reqs)
+		// the served directory named "." (sequential: the working directory is process-wide)
+		cwdStates := append(append([]harness.Tree(nil), fsProbeStates()...), fsSpellingStates(states, true)...)
+		if len(cwdStates) > 14 {
+			cwdStates = cwdStates[:14]
+		}
+		c01CwdRoot(r, cwdStates, reqs)
 		first := true
 		exploreFS(r, states, reqs, func(v *fsVisit) {
 			c01Visit(v)
